@@ -34,3 +34,42 @@ Fixpoint deref (fuel : nat) (env : list cell) (i : nat) (depth : Z) : res Z :=
       else Panic
     end
   end.
+
+(** ** Dereference with array subscripts ([deref_lvalue], both arms).
+    A variable (or array element) holds the parsed form of its string value: a literal, the name
+    of a scalar, or an array element whose subscript is again such an expression.  The subscript
+    of [ArrayElement] is evaluated with the CURRENT depth ([eval_expr_impl(index_expr, shell,
+    depth)]), so a cycle that runs through a subscript still trips [MAX_VARIABLE_DEREF_DEPTH]. *)
+Inductive aexp := ALit (v : Z) | AVar (i : nat) | AElem (a : nat) (ix : aexp).
+
+Record aenv := { scalars : list aexp; arrays : list (list aexp) }.
+
+Definition lookup_elem (env : aenv) (a : nat) (k : Z) : option aexp :=
+  match nth_error (arrays env) a with
+  | Some arr => if k <? 0 then None else nth_error arr (Z.to_nat k)
+  | None => None
+  end.
+
+Fixpoint aeval (fuel : nat) (env : aenv) (e : aexp) (depth : Z) : res Z :=
+  match fuel with
+  | O => OutOfFuel
+  | S f =>
+    (* the tail of deref_lvalue: the value string has been fetched and parsed to [c] *)
+    let continue_with (c : option aexp) : res Z :=
+      match c with
+      | None => Val 0                                   (* unset / empty string: literal 0 *)
+      | Some (ALit v) => Val v                           (* literals do not count *)
+      | Some e' =>
+        let nd := depth + 1 in
+        if nd <? two32 then
+          if MAX_DEPTH <? nd then Fail else aeval f env e' nd
+        else Panic
+      end in
+    match e with
+    | ALit v => Val v
+    | AVar i => continue_with (nth_error (scalars env) i)
+    | AElem a ix =>
+      bind (aeval f env ix depth) (fun k =>
+      if k <? 0 then Fail else continue_with (lookup_elem env a k))
+    end
+  end.
